@@ -1,5 +1,7 @@
 """Runs the monitor harness over the shipped configurations in parallel and returns the merged result."""
 import concurrent.futures as cf
+import sys as _sys, os as _os
+_sys.path.insert(0, _os.path.dirname(_os.path.dirname(_os.path.abspath(__file__))))
 import glob
 import json
 import os
@@ -14,7 +16,8 @@ NEEDS_MDANALYSIS = ("hard_disk_dipoles.ini", "hard_disk_dipoles_cells.ini")
 def configs():
     base = os.path.join(REPO, "jellyfysh", "config_files")
     out = sorted(glob.glob(os.path.join(base, "**", "*.ini"), recursive=True))
-    return [c for c in out if os.path.basename(c) not in NEEDS_MDANALYSIS]
+    from monitors.generated import GENERATED
+    return [c for c in out if os.path.basename(c) not in NEEDS_MDANALYSIS] + sorted(GENERATED)
 
 
 def run_one(args):
